@@ -765,14 +765,29 @@ def _dither_eval(pt, seed):
     viol = []
     mseed = 1000 + int(seed)
 
-    def run(coeff, xt, s=mseed, functional=False):
+    def run(coeff, xt, s=mseed, functional=False, mode=None):
         torch.manual_seed(s)
         if functional:
             return _call_nograd(lambda t: pytorch_dither(t, coeff), xt)
         rb = computers.call(lambda: PyTorchDither.from_dither(Dither(coeff)))
         if rb[0] != "ok":
             return rb
-        return _call_nograd(rb[1], xt)
+        mod = rb[1]
+        if mode == "eval":
+            mod = mod.eval()           # the standard call before inference: dither is not dropout
+        elif mode == "train_false":
+            mod = mod.train(False)
+        elif mode == "eval_script":
+            mod = torch.jit.script(mod.eval())
+        elif mode == "deepcopy":
+            import copy
+            mod = copy.deepcopy(mod)
+        elif mode == "state_dict":
+            other = PyTorchDither.from_dither(Dither(coeff))
+            other.load_state_dict(mod.state_dict())
+            mod = other
+        torch.manual_seed(s)
+        return _call_nograd(mod, xt)
 
     def fail(detail, exc=None):
         t = dict(tags)
@@ -811,6 +826,18 @@ def _dither_eval(pt, seed):
         changed = other[0] == "ok" and not np.array_equal(_to_np(other[1]), a)
         obs = (kind, bool(changed), bool(np.any(a != x)))
         nontrivial = bool(n and coeff > 0 and np.any(a != x))
+    elif kind == "module_mode":
+        coeff = pt["coeff"]
+        a, b = run(coeff, xt), run(coeff, xt, mode=pt["mode"])
+        for r in (a, b):
+            if r[0] != "ok":
+                return fail("coeff=%r mode=%s raised %s: %s" % (coeff, pt["mode"], r[1], r[2]), r[1])
+        a, b = _to_np(a[1]), _to_np(b[1])
+        if not np.array_equal(a, b):
+            return fail("coeff=%r: the module after %s adds other noise than a fresh module under the same "
+                        "seed (noise std %.3g vs %.3g)" % (coeff, pt["mode"], float(np.std(b - x)),
+                                                           float(np.std(a - x))))
+        nontrivial = bool(np.any(a != x))
     elif kind == "linear":
         sigma, c = pt["sigma"], pt["factor"]  # factor is a power of two: scaling is exact
         a, b = run(sigma, xt), run(c * sigma, xt)
@@ -882,6 +909,9 @@ def _dither_points(tier):
                                 zero_signal=True, precision=prec))
         for shape in shapes + [[1000]]:
             pts.append(dict(kind="identity", shape=shape, precision=prec))
+        for mode in ("eval", "train_false", "eval_script", "deepcopy", "state_dict"):
+            for coeff in (1.0, 0.3):
+                pts.append(dict(kind="module_mode", mode=mode, coeff=coeff, shape=[257], precision=prec))
         for coeff in (0.3, 1.0, 2.5):
             pts.append(dict(kind="signal_independent", coeff=coeff, shape=[129], precision=prec))
         for sigma in (1.0, 0.3, 2.5) + ((0.01, 40.0) if tier == "thorough" else ()):
@@ -1022,7 +1052,7 @@ def subchecks(tier, seed):
             "dither", _dither_points(tier), lambda p: _dither_eval(p, seed),
             "PyTorchDither: same manual_seed => identical (module == functional); "
             "noise(c*sigma) == c*noise(sigma) exactly for c a power of two on a zero signal; "
-            "coeff 0 => identity; noise independent of the signal; mean/std of 2e5 samples within "
+            "coeff 0 => identity; noise independent of the signal; the module after .eval() / .train(False) / scripted in eval mode / deep-copied / restored from its state_dict adds the same noise as a fresh module; mean/std of 2e5 samples within "
             "6 standard errors (fixed seed)",
             replay=lambda case: _dither_eval(case, seed), chunk=1),
     ]
